@@ -127,6 +127,93 @@ def build_merge(fns):
     return [sc]
 
 
+def build_local_run(fns):
+    """FileDeduper::dedup_query_against_local_data: the byte count of a self-reference run is the sum of the lengths
+    of exactly the chunks of the run (loop step): the chunk whose length is added is chunk `idx` of the open xorb,
+    `idx` is the position just looked up, it equals base_idx + i, and the run end becomes idx + 1."""
+    f = mir.find_fn(fns, r"file_deduplication::.*dedup_query_against_local_data$")
+    heads = [bb for bb in f.order if not f.blocks[bb][2] and re.search(r"as Iterator>::next\(", f.blocks[bb][1])]
+    if len(heads) != 1:
+        raise LookupError("run-extension loop head not found")
+    s = symex.Sym(f, prefix="lr.", models=symex.STD_MODELS, max_visits=1)
+    back = [p for p in s.run(heads[0], max_paths=500) if p.end == "bound" and len(p.trace) > 1]
+    ext = [p for p in back if any(re.search(r"<Vec<(chunking::)?Chunk> as Index<usize>>::index$", e[0]) for e in p.events)]
+    if not ext:
+        raise LookupError("no loop path extends the run")
+    sc = smt.Script("c14_local_dedup_run_bytes")
+    for i, p in enumerate(ext):
+        ev = [e for e in p.events if re.search(r"<Vec<(chunking::)?Chunk> as Index<usize>>::index$", e[0])][-1]
+        idx = s.debug_val(p, "idx").t
+        base = s.debug_val(p, "base_idx").t
+        it = s.debug_val(p, "i").t
+        end = s.debug_val(p, "end_idx").t
+        sc.query("the chunk whose length is added to the run is the chunk just matched (index idx) [path %d]" % i, p.pc + [mk_not(mk_eq(ev[1][1], idx))])
+        sc.query("the run is extended only by the next consecutive chunk (idx == base_idx + i) [path %d]" % i, p.pc + [mk_not(mk_eq(idx, "(bvadd %s %s)" % (base, it)))])
+        sc.query("the run end becomes idx + 1 [path %d]" % i, p.pc + [mk_not(mk_eq(end, "(bvadd %s %s)" % (idx, bvconst(1, 64))))])
+        sc.query("witness: extension path feasible [path %d]" % i, p.pc, expect="sat", kind="witness")
+    sc.declare(s.decls)
+    return [sc]
+
+
+def build_session_merge(fns):
+    """register_single_file_clean_completion: every Ok return has merged the file's metrics into the session's."""
+    g = modeb.CFG(mir.find_fn(fns, r"file_upload_session::.*register_single_file_clean_completion::\{closure#0\}$"))
+    mg = g.blocks_calling(r"DeduplicationMetrics::merge_in$")
+    resid = g.blocks_calling(r"FromResidual<.*>>::from_residual$")
+    if not mg:
+        raise LookupError("register_single_file_clean_completion no longer merges metrics")
+    sc = smt.Script("c14_session_metrics_merged")
+    modeb.no_path_query(g, sc, "a file's metrics are merged into the session on every successful completion", [g.entry], sorted(g.real_returns), mg + resid)
+    modeb.no_path_query(g, sc, "witness: Ok return reachable", [g.entry], sorted(g.real_returns), resid, expect="sat", kind="witness")
+    return [sc]
+
+
+def build_add_data(fns):
+    """SingleFileCleaner::add_data: the blocks handed to add_data_impl tile the input exactly (loop step)."""
+    f = mir.find_fn(fns, r"file_cleaner::.*add_data::\{closure#0\}$")
+    pos_place = f.debug["pos"][0]
+    head = None
+    for bb in f.order:
+        stmts, term, cleanup = f.blocks[bb]
+        if not cleanup and any(st.endswith("= copy " + pos_place) for st in stmts) and any("= Lt(" in st for st in stmts) and term.startswith("switchInt"):
+            head = bb
+    if head is None:
+        raise LookupError("block-splitting loop of add_data not found")
+    s = symex.Sym(f, prefix="ad.", models=symex.STD_MODELS, max_visits=1)
+    paths = s.run(head, max_paths=2000)
+    back = [p for p in paths if p.end == "bound" and len(p.trace) > 1]
+    if not back:
+        raise LookupError("no path returns to the loop head")
+    sc = smt.Script("c14_add_data_tiling")
+    p0 = symex.Path()
+    p0.decls = s.decls
+    pos0 = s.load(p0, s.resolve(p0, symex.parse_place(pos_place)), "usize").t
+    for i, p in enumerate(back):
+        rng = [e for e in p.events if re.search(r"Index<(std::ops::)?Range<usize>>>::index$", e[0])]
+        call = [e for e in p.events if re.search(r"add_data_impl$", e[0])]
+        if len(rng) != 1 or len(call) != 1:
+            raise LookupError("loop body does not slice once and call add_data_impl once")
+        rv = rng[0][4][1]
+        if rv.kind != "tuple" or len(rv.items) != 2 or not all(x.kind == "bv" for x in rv.items):
+            raise LookupError("slice bounds not identified")
+        st_en = (rv.items[0].t, rv.items[1].t)
+        pos1 = s.load(p, s.resolve(p, symex.parse_place(pos_place)), "usize").t
+        sc.query("the block starts where the previous one ended [path %d]" % i, p.pc + [mk_not(mk_eq(st_en[0], pos0))])
+        sc.query("the next block starts where this one ends [path %d]" % i, p.pc + [mk_not(mk_eq(pos1, st_en[1]))])
+        # the ingestion block size (a configurable constant read on this path) is positive
+        blk = None
+        for bb in p.trace:
+            t = mir.parse_term(f.blocks[bb][1])
+            if t["kind"] == "call" and re.search(r"<INGESTION_BLOCK_SIZE as Deref>::deref$", t["func"]):
+                blk = s.load(p, ("deref", ("local", t["dest"].strip())), "usize").t
+        if blk is None:
+            raise LookupError("block size not read in the loop body")
+        sc.query("progress: the block is non-empty [path %d]" % i, p.pc + ["(bvugt %s %s)" % (blk, bvconst(0, 64)), mk_not("(bvugt %s %s)" % (st_en[1], pos0))])
+        sc.query("witness: iteration feasible [path %d]" % i, p.pc, expect="sat", kind="witness")
+    sc.declare(s.decls)
+    return [sc]
+
+
 def build_snapshot(fns):
     """finalize_impl: the session metrics are read out only after every background upload task was joined
     (the tasks add the bytes they transmitted to the session metrics when they complete)."""
@@ -159,6 +246,22 @@ def replay_snapshot(model, fnd, prop):
     return None, path, "native replay inconclusive (rc=%s)" % rc
 
 
+def _native(testfile, testfn):
+    def run(model, fnd, prop):
+        env = base_env()
+        env["CARGO_TARGET_DIR"] = os.path.join(BUILD, "replay_target")
+        rc, out = sh(["cargo", "test", "--offline", "--test", testfile, "--", testfn], cwd=os.path.join(VERIF, "replay"), env=env, timeout=2400,
+                     log=os.path.join(LOGS, "replay_%s_%s.log" % (testfile, testfn)))
+        path = os.path.join(VERIF, "replay", "tests", testfile + ".rs")
+        if "test result: FAILED" in out and "C14 violated" in out:
+            m = re.search(r"C14 violated: [^\n]*", out)
+            return True, path, m.group(0)[:240] if m else "native replay fails"
+        if re.search(r"test result: ok. [1-9]\d* passed", out):
+            return False, path, "native replay %s passes" % testfn
+        return None, path, "native replay inconclusive (rc=%s)" % rc
+    return run
+
+
 def replay(model, fnd, prop):
     env = base_env()
     env["CARGO_TARGET_DIR"] = os.path.join(BUILD, "replay_target")
@@ -178,6 +281,15 @@ SMT = [
       functions=["data::file_upload_session::FileUploadSession::finalize_impl"], bounds="all CFG paths", replay=replay_snapshot, solvers=("z3", "cvc5-bv")),
     Q("c14_loop_step", "conservation laws as an inductive step of process_chunks' result loop", "deduplication", build_loop,
       functions=["deduplication::file_deduplication::FileDeduper::process_chunks (result-processing loop body)"], bounds="one iteration from an arbitrary state", replay=replay),
+    Q("c14_local_run_bytes", "byte count of an in-xorb self-reference run (loop step)", "deduplication", build_local_run,
+      functions=["deduplication::file_deduplication::FileDeduper::dedup_query_against_local_data"], bounds="one iteration from an arbitrary state",
+      replay=_native("c14_native_conservation", "self_reference_run_bytes")),
+    Q("c14_session_metrics_merged", "file metrics always reach the session metrics (Mode B)", "data", build_session_merge,
+      functions=["data::file_upload_session::FileUploadSession::register_single_file_clean_completion"], bounds="all CFG paths", solvers=("z3", "cvc5-bv"),
+      replay=_native("c14_native_conservation", "session_metrics_are_sums_over_files")),
+    Q("c14_add_data_tiling", "add_data hands the chunker blocks that tile the input (loop step)", "data", build_add_data,
+      functions=["data::file_cleaner::SingleFileCleaner::add_data"], bounds="one iteration from an arbitrary state",
+      replay=_native("c14_native_conservation", "add_data_feeds_every_byte")),
     Q("c14_merge_in", "DeduplicationMetrics::merge_in is a field-wise sum", "deduplication", build_merge,
       functions=["deduplication::dedup_metrics::DeduplicationMetrics::merge_in"], bounds="all 64-bit values"),
 ]
